@@ -21,6 +21,10 @@ ArrayApply(cap, bits, op) ==
       [] op[1] = "setall"   -> [bits |-> Idx(cap), out |-> 0 - 1]
       [] op[1] = "clearall" -> [bits |-> {}, out |-> 0 - 1]
       [] op[1] = "empty"    -> [bits |-> bits, out |-> IF bits = {} THEN 1 ELSE 0]
+      \* two-step sequences that expose bits outside 0..cap-1: set-all, clear every index, then empty();
+      \* set-all, then compare with an array in which every index was set individually
+      [] op[1] = "fill_clear_empty" -> [bits |-> {}, out |-> 1]
+      [] op[1] = "fill_ne_full"     -> [bits |-> Idx(cap), out |-> 0]
       \* op[2] : the other array as a sequence of its set indices
       [] op[1] = "and"      -> [bits |-> bits \cap { op[2][i] : i \in 1 .. Len(op[2]) }, out |-> 0 - 1]
       [] op[1] = "ne"       -> [bits |-> bits, out |-> IF bits # { op[2][i] : i \in 1 .. Len(op[2]) } THEN 1 ELSE 0]
@@ -37,7 +41,7 @@ SeqOfSet(S) == LET RECURSIVE F(_)
 
 ArrayOps(cap, others) ==
     { <<"set", i>> : i \in Idx(cap) } \cup { <<"clear", i>> : i \in Idx(cap) } \cup { <<"get", i>> : i \in Idx(cap) }
-    \cup { <<"setall">>, <<"clearall">>, <<"empty">> }
+    \cup { <<"setall">>, <<"clearall">>, <<"empty">>, <<"fill_clear_empty">>, <<"fill_ne_full">> }
     \cup { <<"and", SeqOfSet(o)>> : o \in others } \cup { <<"ne", SeqOfSet(o)>> : o \in others }
     \cup UNION { UNION { { <<"vget", u, w, j>> : j \in 0 .. w - 1 } \cup { <<"vset", u, w, j>> : j \in 0 .. w - 1 }
                          \cup { <<"vclear", u, w, j>> : j \in 0 .. w - 1 } \cup { <<"vclearall", u, w>>, <<"vbool", u, w>> }
